@@ -830,6 +830,39 @@ def s_same_rotated(draw):
     return case
 
 
+@st.composite
+def s_same_wide(draw):
+    """A strip thousands of pixels long whose pixel size differs from the source's by a fraction of a per cent (10 m
+    against 10.004 m): whatever snapping the chunk planning applies, a drift of one source pixel per ~2500 pixels must
+    not move a far-away destination chunk onto the wrong source chunks."""
+    _, S0, label = draw(_src_box())
+    # keep the strip inside the CRS's area: fine pixels (2^-10 degree ~ 100 m, or 16 m), origin as drawn
+    p_ = Fr(1, 1024) if label in GEOGRAPHIC else Fr(16)
+    m0 = S0.m
+    S = FA(p_ * (1 if m0[0] > 0 else -1), 0, m0[2], 0, p_ * (1 if m0[4] > 0 else -1), m0[5])
+    long_ = draw(st.sampled_from([3000, 4500, 6000, 8000]))
+    short = draw(st.integers(2, 6))
+    along_x = draw(st.booleans())
+    k = draw(st.sampled_from([1, 1, 2]))
+    a = Fr(k) * (1 + Fr(draw(st.sampled_from([4, -4, 2, -3, 7])), 10000))
+    src_shape = [short * k, long_] if along_x else [long_, short * k]
+    n_d = int(long_ / float(a)) - draw(st.integers(0, 40))
+    dst_shape = [short, n_d] if along_x else [n_d, short]
+    off = Fr(draw(st.integers(0, 20)))
+    M = FA(a, 0, off, 0, Fr(k), 0) if along_x else FA(Fr(k), 0, 0, 0, a, off)
+    D = S * M
+    case = {
+        "src": {"shape": src_shape, "affine": list(S.floats()), "crs": label},
+        "dst": {"shape": dst_shape, "affine": list(D.floats()), "crs": label},
+        "klass": "near_integer_scale_wide",
+        "place": "contained",
+    }
+    case.update(_common(draw, src_shape, dst_shape, big_ok=True))
+    case["nt"] = 0
+    case["nan_blocks"] = 0
+    return case
+
+
 # ---- different CRS
 def _ll_box(label):
     lon0, lat0, lon1, lat1 = CRS_POOL[label][1]
@@ -1156,6 +1189,7 @@ def build(chk: Check) -> None:
             budget_s={"quick": 35, "thorough": 130}, shrink=False)
     chk.sub("cross_crs_nearest", o_cross, strategy=s_cross(), n={"quick": 340, "thorough": 7000},
             budget_s={"quick": 45, "thorough": 180}, shrink=False)
+    chk.sub("same_crs_wide_strip", o_same_crs, strategy=s_same_wide(), n={"quick": 40, "thorough": 1200}, budget_s={"quick": 45, "thorough": 200}, shrink=False)
     chk.sub("fill_bilinear", o_fill_other,
             strategy=st.one_of(s_same_linear(resampling="bilinear"), s_same_linear(resampling="bilinear"), s_cross(resampling="bilinear")),
             n={"quick": 220, "thorough": 4000}, budget_s={"quick": 35, "thorough": 100}, shrink=False)
